@@ -43,9 +43,11 @@ pub fn run(run: &mut Run) {
             diagnostics(acc, p);
         }
     });
+    let mut st = st;
+    crate::engines::c18::reentrancy_check(&mut st);
     run.stats = st;
     run.bounds = bounds;
-    run.rule = "the recursion templates (a value held across the recursive call at each of 37 expression positions, depth 1-3, with and without tracing, mutual recursion through a mutable global, a method re-entering through self), every action sequence of the closure / blob-method / enum-binding / global families, and every expression of the expression families in the contexts that involve calls, closures and early returns; held values, recursion levels and closure instances carry pairwise different values and every intermediate result is printed, so a value read from another activation changes the trace; non-trivial = the trace prints something; distinct by program text".into();
+    run.rule = "the recursion templates (a value held across the recursive call at each of 37 expression positions, depth 1-3, with and without tracing, mutual recursion through a mutable global, a method re-entering through self), every action sequence of the closure / blob-method / enum-binding / global families, every expression of the expression families in the contexts that involve calls, closures and early returns, and the standard library's map / filter / fold re-entered from their own callbacks (every pair of such calls on every list of length <= 4 over two values, four element kinds, compared with a Vec model); held values, recursion levels and closure instances carry pairwise different values and every intermediate result is printed, so a value read from another activation changes the trace; non-trivial = the trace prints something; distinct by program text".into();
     run.assumptions = vec![
         "verdict = trace equality between the emitted Lua under MiniLua and RefSylt; the count of chunks that assign undeclared V-names is a diagnostic only".into(),
         "programs skipped by C01's rules (order-ambiguous assignments, budget) are skipped here too".into(),
